@@ -194,12 +194,12 @@ Proof.
 Qed.
 
 (** ** Retirement *)
-Lemma cache_ok_retire w tid t nd r :
+Lemma cache_ok_retire_gen w tid t nd r :
   rgraph_ok w -> cache_ok w -> w_tables w !! tid = Some t -> w_nodes w !! t_node t = Some nd ->
-  n_rel nd = Some r -> t_active t = true -> tlen t = 0 -> cache_ok (retire_table w tid).
+  n_rel nd = Some r -> t_active t = true -> cache_ok (retire_table w tid).
 Proof.
-  intros G C Ht Hnd Hrel Hact Hlen.
-  pose proof (retire_table_rok w tid t nd r G Ht Hnd Hrel Hact Hlen) as G'.
+  intros G C Ht Hnd Hrel Hact.
+  pose proof (retire_table_rok_gen w tid t nd r G Ht Hnd Hrel Hact) as G'.
   pose proof (retire_table_nodes w tid) as HN.
   assert (Hshape : w_cache (retire_table w tid) = map (centry_remove tid) (w_cache w) /\
                    (forall tid0, tid0 <> tid -> w_tables (retire_table w tid) !! tid0 = w_tables w !! tid0) /\
@@ -230,6 +230,11 @@ Proof.
     + split; [done|intros Hx; by apply F0 in Hx].
     + rewrite F1 by done. apply Hmem.
 Qed.
+
+Lemma cache_ok_retire w tid t nd r :
+  rgraph_ok w -> cache_ok w -> w_tables w !! tid = Some t -> w_nodes w !! t_node t = Some nd ->
+  n_rel nd = Some r -> t_active t = true -> tlen t = 0 -> cache_ok (retire_table w tid).
+Proof. intros G C Ht Hnd Hrel Hact _. by eapply cache_ok_retire_gen. Qed.
 
 Lemma cache_ok_cleanup_table w tid : rgraph_ok w -> cache_ok w -> cache_ok (cleanup_table w tid).
 Proof.
